@@ -1,0 +1,252 @@
+//go:build verif
+
+package constraint
+
+// Contracts for govc (see /verif/DESIGN.md; oracle: /verif/spec/40_constraints.gvs).
+// Comment-only file. The first part is generated from the list of constraint
+// types by /verif/tools (one contract pair per type).
+
+//@ interface Constraint.Type(self)
+//@   requires ctypeOf(self) >= 0
+//@   pure
+//@   ensures result == ctypeOf(self)
+
+//@ interface Constraint.IsJsonTypeCompatible(self, t)
+//@   requires ctypeOf(self) >= 0
+//@   pure
+//@   ensures result == compat(ctypeOf(self), t)
+
+//@ func (MinLength).Type()
+//@   props C08
+//@   implements Constraint.Type
+//@   ensures result == MinLengthConstraintType
+
+//@ func (MinLength).IsJsonTypeCompatible(t)
+//@   props C08
+//@   implements Constraint.IsJsonTypeCompatible
+
+//@ func (MaxLength).Type()
+//@   props C08
+//@   implements Constraint.Type
+//@   ensures result == MaxLengthConstraintType
+
+//@ func (MaxLength).IsJsonTypeCompatible(t)
+//@   props C08
+//@   implements Constraint.IsJsonTypeCompatible
+
+//@ func (Min).Type()
+//@   props C08
+//@   implements Constraint.Type
+//@   ensures result == MinConstraintType
+
+//@ func (Min).IsJsonTypeCompatible(t)
+//@   props C08
+//@   implements Constraint.IsJsonTypeCompatible
+
+//@ func (Max).Type()
+//@   props C08
+//@   implements Constraint.Type
+//@   ensures result == MaxConstraintType
+
+//@ func (Max).IsJsonTypeCompatible(t)
+//@   props C08
+//@   implements Constraint.IsJsonTypeCompatible
+
+//@ func (ExclusiveMinimum).Type()
+//@   props C08
+//@   implements Constraint.Type
+//@   ensures result == ExclusiveMinimumConstraintType
+
+//@ func (ExclusiveMinimum).IsJsonTypeCompatible(t)
+//@   props C08
+//@   implements Constraint.IsJsonTypeCompatible
+
+//@ func (ExclusiveMaximum).Type()
+//@   props C08
+//@   implements Constraint.Type
+//@   ensures result == ExclusiveMaximumConstraintType
+
+//@ func (ExclusiveMaximum).IsJsonTypeCompatible(t)
+//@   props C08
+//@   implements Constraint.IsJsonTypeCompatible
+
+//@ func (Precision).Type()
+//@   props C08
+//@   implements Constraint.Type
+//@   ensures result == PrecisionConstraintType
+
+//@ func (Precision).IsJsonTypeCompatible(t)
+//@   props C08
+//@   implements Constraint.IsJsonTypeCompatible
+
+//@ func (TypeConstraint).Type()
+//@   props C08
+//@   implements Constraint.Type
+//@   ensures result == TypeConstraintType
+
+//@ func (TypeConstraint).IsJsonTypeCompatible(t)
+//@   props C08
+//@   implements Constraint.IsJsonTypeCompatible
+
+//@ func (TypesList).Type()
+//@   props C08
+//@   implements Constraint.Type
+//@   ensures result == TypesListConstraintType
+
+//@ func (TypesList).IsJsonTypeCompatible(t)
+//@   props C08
+//@   implements Constraint.IsJsonTypeCompatible
+
+//@ func (Optional).Type()
+//@   props C08
+//@   implements Constraint.Type
+//@   ensures result == OptionalConstraintType
+
+//@ func (Optional).IsJsonTypeCompatible(t)
+//@   props C08
+//@   implements Constraint.IsJsonTypeCompatible
+
+//@ func (Or).Type()
+//@   props C08
+//@   implements Constraint.Type
+//@   ensures result == OrConstraintType
+
+//@ func (Or).IsJsonTypeCompatible(t)
+//@   props C08
+//@   implements Constraint.IsJsonTypeCompatible
+
+//@ func (RequiredKeys).Type()
+//@   props C08
+//@   implements Constraint.Type
+//@   ensures result == RequiredKeysConstraintType
+
+//@ func (RequiredKeys).IsJsonTypeCompatible(t)
+//@   props C08
+//@   implements Constraint.IsJsonTypeCompatible
+
+//@ func (Email).Type()
+//@   props C08
+//@   implements Constraint.Type
+//@   ensures result == EmailConstraintType
+
+//@ func (Email).IsJsonTypeCompatible(t)
+//@   props C08
+//@   implements Constraint.IsJsonTypeCompatible
+
+//@ func (MinItems).Type()
+//@   props C08
+//@   implements Constraint.Type
+//@   ensures result == MinItemsConstraintType
+
+//@ func (MinItems).IsJsonTypeCompatible(t)
+//@   props C08
+//@   implements Constraint.IsJsonTypeCompatible
+
+//@ func (MaxItems).Type()
+//@   props C08
+//@   implements Constraint.Type
+//@   ensures result == MaxItemsConstraintType
+
+//@ func (MaxItems).IsJsonTypeCompatible(t)
+//@   props C08
+//@   implements Constraint.IsJsonTypeCompatible
+
+//@ func (Enum).Type()
+//@   props C08
+//@   implements Constraint.Type
+//@   ensures result == EnumConstraintType
+
+//@ func (Enum).IsJsonTypeCompatible(t)
+//@   props C08
+//@   implements Constraint.IsJsonTypeCompatible
+
+//@ func (AdditionalProperties).Type()
+//@   props C08
+//@   implements Constraint.Type
+//@   ensures result == AdditionalPropertiesConstraintType
+
+//@ func (AdditionalProperties).IsJsonTypeCompatible(t)
+//@   props C08
+//@   implements Constraint.IsJsonTypeCompatible
+
+//@ func (AllOf).Type()
+//@   props C08
+//@   implements Constraint.Type
+//@   ensures result == AllOfConstraintType
+
+//@ func (AllOf).IsJsonTypeCompatible(t)
+//@   props C08
+//@   implements Constraint.IsJsonTypeCompatible
+
+//@ func (AnyConstraint).Type()
+//@   props C08
+//@   implements Constraint.Type
+//@   ensures result == AnyConstraintType
+
+//@ func (AnyConstraint).IsJsonTypeCompatible(t)
+//@   props C08
+//@   implements Constraint.IsJsonTypeCompatible
+
+//@ func (Nullable).Type()
+//@   props C08
+//@   implements Constraint.Type
+//@   ensures result == NullableConstraintType
+
+//@ func (Nullable).IsJsonTypeCompatible(t)
+//@   props C08
+//@   implements Constraint.IsJsonTypeCompatible
+
+//@ func (Regex).Type()
+//@   props C08
+//@   implements Constraint.Type
+//@   ensures result == RegexConstraintType
+
+//@ func (Regex).IsJsonTypeCompatible(t)
+//@   props C08
+//@   implements Constraint.IsJsonTypeCompatible
+
+//@ func (Uri).Type()
+//@   props C08
+//@   implements Constraint.Type
+//@   ensures result == UriConstraintType
+
+//@ func (Uri).IsJsonTypeCompatible(t)
+//@   props C08
+//@   implements Constraint.IsJsonTypeCompatible
+
+//@ func (Date).Type()
+//@   props C08
+//@   implements Constraint.Type
+//@   ensures result == DateConstraintType
+
+//@ func (Date).IsJsonTypeCompatible(t)
+//@   props C08
+//@   implements Constraint.IsJsonTypeCompatible
+
+//@ func (DateTime).Type()
+//@   props C08
+//@   implements Constraint.Type
+//@   ensures result == DateTimeConstraintType
+
+//@ func (DateTime).IsJsonTypeCompatible(t)
+//@   props C08
+//@   implements Constraint.IsJsonTypeCompatible
+
+//@ func (UUID).Type()
+//@   props C08
+//@   implements Constraint.Type
+//@   ensures result == UuidConstraintType
+
+//@ func (UUID).IsJsonTypeCompatible(t)
+//@   props C08
+//@   implements Constraint.IsJsonTypeCompatible
+
+//@ func (Const).Type()
+//@   props C08
+//@   implements Constraint.Type
+//@   ensures result == ConstConstraintType
+
+//@ func (Const).IsJsonTypeCompatible(t)
+//@   props C08
+//@   implements Constraint.IsJsonTypeCompatible
+
